@@ -144,7 +144,7 @@ def expected_params(kind, segs):
 def gen_case(rng):
     label, pattern, kind = rng.pick(ROUTES)
     nlev = rng.pick([1, 1, 2, 2, 3])
-    levels = [{'mode': rng.pick(MODES), 'prefix': rng.pick(['/e%d' % k, '/e%d/' % k, '/e%d/sub' % k]),
+    levels = [{'mode': rng.pick(MODES), 'prefix': rng.pick(['/e%d' % k, '/e%d/' % k, '/e%d/sub' % k, '/e%d' % k, '/']),
                'inherit': rng.chance(0.6)} for k in range(nlev)]
     route = {'label': label, 'pattern': pattern, 'kind': kind, 'mode': rng.pick(MODES), 'inherit': rng.chance(0.65),
              'methods': rng.pick([None, None, ['GET'], ['POST'], ['GET', 'POST']])}
